@@ -651,8 +651,9 @@ func (e *FactEngine) boolForm(x ast.Expr, sc *scope) *Formula {
 		if o != nil && sc.local {
 			if _, ok := e.okvars[o]; ok {
 				var paths []string
-				s := "ok(" + e.canon(e.aliases[o], e.fnScope(), &paths) + ")"
-				return e.atomOf(s, paths)
+				s := "ok(" + e.canon(e.aliases[o], e.fnScope(), &paths) + fmt.Sprintf(")@%d", o.Pos())
+				// the flag is a single-definition local: nothing can change it
+				return e.atomOf(s, nil)
 			}
 			if rhs, ok := e.boolDefs[o]; ok && e.depth < 4 {
 				e.depth++
@@ -1113,7 +1114,7 @@ func (w *walker) recordInExpr(x ast.Expr, s vset) {
 	w.record(s)
 }
 
-var pureMethodPrefixes = []string{"Len", "Has", "Get", "Is", "String", "After", "Before", "Equal", "Load", "Unix", "Sub", "Add", "Contains", "Deep", "Info", "Error", "V", "With", "Enabled", "Lookup", "List", "Idles", "InUse", "Allocatable", "Valid", "Deleting", "Peek", "ByPodID", "Match", "To", "Name", "Zero"}
+var pureMethodPrefixes = []string{"Lock", "RLock", "Unlock", "RUnlock", "Broadcast", "Signal", "Len", "Has", "Get", "Is", "String", "After", "Before", "Equal", "Load", "Unix", "Sub", "Add", "Contains", "Deep", "Info", "Error", "V", "With", "Enabled", "Lookup", "List", "Idles", "InUse", "Allocatable", "Valid", "Deleting", "Peek", "ByPodID", "Match", "To", "Name", "Zero"}
 
 func looksPure(name string) bool {
 	for _, p := range pureMethodPrefixes {
@@ -1794,3 +1795,26 @@ func (c *Ctx) Require(rule, key string, fn *FuncInfo, target ast.Node, req strin
 	}
 	return c.Bad(rule, key, c.P.Pos(target), fn.Key(), src, cex)
 }
+
+// RequireF is Require with a programmatically built requirement.
+func (c *Ctx) RequireF(rule, key string, fn *FuncInfo, target ast.Node, desc string, build func(e *FactEngine) (*Formula, error)) *Obligation {
+	e := NewFactEngine(c.P, fn)
+	f, err := build(e)
+	if err != nil {
+		return c.Undec(rule, key, c.P.Pos(target), fn.Key(), desc, err.Error())
+	}
+	ok, cex, err := e.FactsAt(target, f)
+	if err != nil {
+		return c.Undec(rule, key, c.P.Pos(target), fn.Key(), desc, err.Error())
+	}
+	if ok {
+		return c.OK(rule, key, c.P.Pos(target), fn.Key(), desc)
+	}
+	return c.Bad(rule, key, c.P.Pos(target), fn.Key(), desc, cex)
+}
+
+// Expr parses a Go expression in the scope at pos and returns its formula.
+func (e *FactEngine) Expr(src string, pos token.Pos) (*Formula, error) { return e.ParseReq(src, pos) }
+
+// Cond returns the formula of an expression of the analysed function.
+func (e *FactEngine) Cond(x ast.Expr) *Formula { return e.boolForm(x, e.fnScope()) }
